@@ -16,6 +16,8 @@ def build(case, pattern=None):
     from cspuz import Solver, graph
 
     s = Solver()
+    if case.get("used"):
+        gcheck.junk(s)
     n, edges, form = case["n"], case["edges"], case["form"]
     m = len(edges)
     g = gcheck.make_graph(n, edges)
@@ -152,9 +154,18 @@ def scale_cases(tier):
     return out
 
 
+def _small(c):
+    """Cases cheap enough to repeat on a Solver that is already in use."""
+    if "shape" in c:
+        return (c["shape"][0] + 1) * (c["shape"][1] + 1) <= 9
+    return c.get("n", 9) <= 3 and len(c.get("edges", ())) <= 4
+
+
 def prepare(tier):
     global _CASES
-    _CASES = cases_for(tier) + scale_cases(tier)
+    base_cases = cases_for(tier)
+    used = [dict(c, used=True) for c in base_cases[:: (7 if tier == "quick" else 3)] if _small(c)]
+    _CASES = base_cases + used + scale_cases(tier)
     return _CASES
 
 
